@@ -853,7 +853,8 @@ def select_shapes(shapes, thorough, sd):
 
     def nmods(sh):
         return len({MODOF[b] for p in sh["pkgs"] for b in sh["uses"][p]})
-    rich = [sh for sh in shapes if len(sh["pkgs"]) == 3 and both_bindings(sh) and nmods(sh) == 3
+    most = max(nmods(sh) for sh in shapes)
+    rich = [sh for sh in shapes if len(sh["pkgs"]) == 3 and both_bindings(sh) and nmods(sh) == most
             and all(sh["uses"][p] for p in sh["pkgs"])]
     rich.sort(key=shape_key)
     if not thorough:
@@ -901,7 +902,7 @@ def part_imports(chk, thorough, sd):
     # (2) the selected shapes: every allowed event trace
     mc = os.path.join(rd, "MCImports.tla")
     with open(mc, "w") as f:
-        f.write("---- MODULE MCImports ----\nEXTENDS PyImports\nSelShapes == {\n  " + ",\n  ".join(tla_shape(sh) for sh in sel) + "}\n====\n")
+        f.write("---- MODULE MCImports ----\nEXTENDS PyImports\nMCSelShapes == {\n  " + ",\n  ".join(tla_shape(sh) for sh in sel) + "}\n====\n")
     res2 = C.tlc(SPEC, "MCImports", "imports_sel.cfg", rd, timeout=1500, parse_json=False, copy_extra=[mc])
     if not res2.ok:
         raise C.Undecided("MCImports failed: %s" % res2.violation)
